@@ -351,6 +351,14 @@ def _reaching_values(f, arg, callnode):
     return {"?"}
 
 
+# functions whose mechanical mutants are swept in the thorough tier (coverage evidence, see sa/mutate.py)
+MUTATION_SCOPE = ['sys_fn_ipc:NetworkClient._run',
+                  'sys_fn_ipc:NetworkClient._listen',
+                  'sys_fn_ipc:NetworkClient.call',
+                  'sys_fn_ipc:NetworkClient.call.send_message_and_get_result',
+                  'sys_fn_ipc:NetworkClient._cleanup_pending_responses',
+                  'sys_fn_ipc:execute_server_command']
+
 SEEDS = [
     Seed("cleanup-out-of-finally", "fault", IPC,
          "            finally:\n                self.writer = None\n                self.reader = None\n                self._cleanup_pending_responses(close_exception)\n                if on_close is not None:",
